@@ -1019,6 +1019,52 @@ func runDisp1(m *Model, r *RuleResult) {
 				sites = append(sites, site{ci, c, deps})
 			}
 		})
+		// exclusivity (added after seeded change C06f: a pre-pass in front of the dispatch routed "trivial" edges itself, with a route the
+		// selected router would not have produced): the phase's own output field is written, in Process, only inside a case of the dispatch
+		if owned := map[string]string{"internal/phase2": igNode + ".Layer", "internal/phase4": igNode + ".X", "internal/phase5": igEdge + ".Points"}[sp]; owned != "" && len(sites) > 0 && isProc {
+			m.fxInit()
+			underAlg := func(b *ssa.BasicBlock) bool {
+				for _, d := range transitiveControlDeps(b) {
+					if !isAlgTest(d.If.Cond) {
+						continue
+					}
+					bo := d.If.Cond.(*ssa.BinOp)
+					eq := d.If.Block().Succs[0]
+					if bo.Op == token.NEQ {
+						eq = d.If.Block().Succs[1]
+					}
+					if eq == b || eq.Dominates(b) {
+						return true
+					}
+				}
+				return false
+			}
+			var outside []string
+			eachInstr(f, func(in ssa.Instruction) {
+				switch x := in.(type) {
+				case *ssa.Store:
+					if fa, ok := x.Addr.(*ssa.FieldAddr); ok {
+						_, steps := fieldChain(fa)
+						if locOfSteps(steps) == owned && !underAlg(in.Block()) {
+							outside = append(outside, "store at "+m.Pos(in.Pos()))
+						}
+					}
+				case ssa.CallInstruction:
+					for _, c := range m.Callees(x) {
+						if e := m.effects[c]; e != nil && inModule(c) && e.Mod[owned] && !underAlg(in.Block()) {
+							outside = append(outside, "call of "+c.Name()+" at "+m.Pos(in.Pos()))
+						}
+					}
+				}
+			})
+			xkey := "exclusive:" + funcKey(f)
+			if len(outside) == 0 {
+				r.add(Obligation{Key: xkey, Pos: m.Pos(f.Pos()), Desc: "the phase's output (" + owned + ") is written only inside a case of the dispatch", Verdict: "holds", Control: ctl})
+			} else {
+				r.add(Obligation{Key: xkey, Pos: m.Pos(f.Pos()), Desc: "the phase's output (" + owned + ") must be written only by the selected algorithm", Verdict: "violation",
+					Detail: strings.Join(uniq(outside), "; ") + " writes " + owned + " outside every case of the dispatch: part of the result is produced by code that runs whatever algorithm was selected, without the selected algorithm's guarantees", Control: ctl})
+			}
+		}
 		if len(sites) > 0 && len(notRecv) > 0 {
 			var vs []string
 			for v := range notRecv {
